@@ -279,7 +279,8 @@ def rule_front_back(em, rep, rid):
         f = em.repo.lookup_method(em.YP, name)
         if f is None:
             raise AnalysisError('anchor vanished: YP.%s' % name)
-        calls = [c for c, cs in em.cg.calls.get(f, ()) if af in cs]
+        f = em.view(f, keep=(af,))           # a shared helper (asserta/assertz as one parameterised function) is pasted in
+        calls = [c for c in own_nodes_ordered(f.node) if isinstance(c, ast.Call) and is_self_attr(c.func, af.name)]
         if not calls:
             rep.violation(rid, '%s:assert_fact' % f.qname, '%s never stores a fact' % name, f.loc())
         for c in calls:
@@ -378,6 +379,16 @@ def rule_retractall_filters_by_match(em, rep, rid):
                 why = 'the published list %s is not only filled clause by clause inside the matching loop' % name
         elif isinstance(a, (ast.ListComp,)) and any('match(' in norm(i) for g in a.generators for i in g.ifs):
             ok = True
+        if not ok and isinstance(a, ast.Name):
+            # the local is one comprehension over the stored clauses whose filter runs the match
+            inits = [s for s in own_nodes_ordered(f.node) if isinstance(s, ast.Assign) and any(is_name(t, a.id) for t in s.targets)]
+            if len(inits) == 1 and isinstance(inits[0].value, ast.ListComp) and not inplace_mutations(f, a.id):
+                comp = inits[0].value
+                g0 = comp.generators[0]
+                if len(comp.generators) == 1 and is_name(comp.elt, getattr(g0.target, 'id', None)) and \
+                        (sm.is_reader_call(f, g0.iter) or (isinstance(g0.iter, ast.Name) and g0.iter.id in sm.alias_locals(f, {}))) and \
+                        any(isinstance(x, ast.Call) and em.is_binder_call(f, x) for i in g0.ifs for x in ast.walk(i)):
+                    ok = True
         if ok:
             rep.ok(rid, key, 'published list = clauses that did not match', f.loc(c))
         else:
@@ -855,9 +866,13 @@ def rule_frozen_lists(em, rep, rid):
                     continue
                 cfg = cfg or em.cfg(f)
                 pn = [n for n in em.nodes_for(f, c) if n.kind == 'call' and n.ast is c]
+                fresh = [x for x in cfg.nodes if x.kind == 'store' and is_name(x.ast, a.id) and
+                         isinstance(x.info, (ast.List, ast.ListComp, ast.Call, ast.BinOp))]
                 for m in ms:
                     mn = em.nodes_for(f, m)
-                    if pn and mn and any(x in cfg.g.reach(pn, edge_ok=lambda l, a_, b_: l not in ('exc',)) for x in mn):
+                    # reachable from the publish without the name being bound to a new list in between
+                    if pn and mn and any(cfg.g.find_path(p0, lambda z, mn=mn: z in mn, avoid=lambda z: z in fresh,
+                                                         edge_ok=lambda l, a_, b_: l not in ('exc',)) is not None for p0 in pn):
                         muts.append((f, m, 'a list that has already been published to the store'))
     rep.minimum('publishing call sites', npub, 3)
     if walks and muts:
@@ -938,7 +953,18 @@ def _source_reads(em, sm, f, a, depth=0):
                         # a value derived from other locals is as fresh as the reads those locals came from
                         out |= _source_reads(em, sm, f, s.value, depth + 1)
                 if isinstance(s, ast.For) and any(is_name(t, x.id) for t in ast.walk(s.target)):
-                    pass
+                    # an element of what the loop iterates: as fresh as that
+                    out |= _source_reads(em, sm, f, s.iter, depth + 1)
+            # a list filled element by element: as fresh as the loops it is filled in and the values put into it
+            for c in own_nodes(f.node):
+                if isinstance(c, ast.Call) and isinstance(c.func, ast.Attribute) and is_name(c.func.value, x.id) and \
+                        c.func.attr in ('append', 'extend', 'insert') and c.args:
+                    out |= _source_reads(em, sm, f, c.args[-1], depth + 1)
+                    for p in parents(c):
+                        if isinstance(p, ast.For):
+                            out |= _source_reads(em, sm, f, p.iter, depth + 1)
+                        if isinstance(p, (ast.FunctionDef, ast.Lambda)):
+                            break
     return out
 
 
@@ -990,8 +1016,19 @@ def rule_remove_by_identity(em, rep, rid, sm=None):
         for c in pubs:
             pn = [m for m in em.nodes_for(f, c) if m.kind == 'call' and m.ast is c]
             for p_ in pn:
-                guards = [t for t in dom[p_] if t.kind == 'test' and any(is_name(x) and x.id in loopvars for x in ast.walk(t.ast))
-                          and (' in ' in norm(t.ast) or ' is ' in norm(t.ast) or 'index' in norm(t.ast))]
+                def presence_test(e):
+                    return any(is_name(x) and x.id in loopvars for x in ast.walk(e)) and \
+                        (' in ' in norm(e) or ' is ' in norm(e) or 'index' in norm(e))
+                guards = [t for t in dom[p_] if t.kind == 'test' and presence_test(t.ast)]
+                if not guards:
+                    # a flag that is set only under such a test (found = False; for c in fresh: if c is clause: found = True)
+                    for t in dom[p_]:
+                        if t.kind == 'test' and isinstance(t.ast, ast.Name):
+                            sets = [s for s in own_nodes(f.node) if isinstance(s, ast.Assign) and any(is_name(tg, t.ast.id) for tg in s.targets)]
+                            trues = [s for s in sets if not (isinstance(s.value, ast.Constant) and s.value.value in (False, None, 0))]
+                            if trues and all(any(isinstance(p, ast.If) and presence_test(p.test) and any(s is b or any(s is y for y in ast.walk(b)) for b in p.body)
+                                                 for p in parents(s)) for s in trues):
+                                guards.append(t)
                 if not guards:
                     ok_all = False
         if ok_all and pubs:
